@@ -392,7 +392,7 @@ def mon_c05_c18(cap, key, rp, want):
                 m = int(bad[0])
                 v18.append(violation("min_needs_sum", k, "%s month %d: pinned consumption sums to %r kcal/person/day, expected min(no-feed result %.4f %%, threshold %s) = %r"
                                      % (key["iso3"], m, tot[m], float(r1.percent_people_fed), T, capv), rp))
-            if (E > A + 1e-6 * np.maximum(1.0, A)).any() or (E < -1e-9).any():
+            if (E > A + 1e-6 * np.maximum(1.0, A)).any():
                 j, m = np.unravel_index(int(np.argmax(E - A)), E.shape)
                 v18.append(violation("min_needs_within_round1", k, "%s month %d: pinned %s %r > eaten in the no-feed round %r" % (key["iso3"], m, order[j], E[j, m], A[j, m]), rp))
             for m in range(N):
@@ -461,7 +461,7 @@ def run_job(job):
     want = run_job.want
     t0 = time.time()
     title = "v_%s_%s_%s" % (pn, iso, common.digest(tag))
-    key = {"iso3": iso, "preset": pn, "deviation": tag}
+    key = {"iso3": iso, "preset": pn, "deviation": tag, "case": "%s|%s|%s" % (iso, pn, tag)}
     rp = {"iso3": iso, "preset": pn, "deviation": tag, "opts": options.clean(opts)}
     out = {p: [] for p in PIDS}
     st = {"key": key, "t": 0, "lp": 0}
